@@ -55,6 +55,24 @@ CLAIMED.update({
    text='ttValid enumerates every assignment of the logic\'s values to the sentence letters; C03_ttValid_iff proves it is true exactly when no assignment is a counterexample; C03_closed_implies_ttValid proves, for every legal derivation (any options / tie-breaks / build or step), that a closed tableau of a propositional argument is truth-table valid, instantiated for all 57 logics. Completeness (tt-valid => closed) and termination without limits are not theorems yet; they are decided on the sweep (per logic: arguments over the 30 sentences of depth <= 1 on two letters, exhaustive in the thorough tier, plus random deeper ones): verdict = ttValid by the Lean driver and by an independent Python enumeration, not premature, no quit flag.',
    note=TB + ' Partial: the completeness half and termination rest on the correspondence sweep, not on a theorem (tools: DESIGN.md section 6 C03).'),
 })
+CLAIMED.update({
+ 'C11': dict(level='proof', technique='Lean 4 proof: generic embedding theorem (an interpretation of the stronger logic is an interpretation of the weaker one with the same values; countermodels transfer) + decidable table-level condition kernel-evaluated for every declared pair regenerated from Meta.extension_of; paired real runs in both logics for the failing-input search',
+   text='embedsB L\' L (value sets, designation, operator tables, quantifier/modal folds on the stronger logic\'s value profiles, vocabulary, frame class, identity) is evaluated by the kernel for each of the ~98 declared pairs, regenerated from the running code on every run. Proved generically for arbitrary structures (any worlds, domain, frame of L) and all sentences of the weaker logic\'s vocabulary: eval agrees (eval_embed), a countermodel in L is a countermodel in L\', hence a closed L\'-tableau reached by ANY legal derivation excludes every L-countermodel (C11_extension_no_countermodel_partial, instantiated per pair in Ptx.Gen.ObExtends), and on the propositional fragment truth-table validity is inherited (C11_extension_prop). The remaining step (no countermodel in L => the L tableau has no limit-free open branch / closes) is C02/C03 completeness and is decided by paired runs: arguments valid in the weaker logic are run in the stronger one.',
+   note=TB + ' Partial: completeness of the stronger logic\'s tableau is not a theorem here; it is covered by the paired runs. Known findings: K3WQ declares extension_of K3W although its quantifier folds differ (Fa |- ExFx); arguments valid only through the inexact Bochvar / FDE biconditional rules.'),
+})
+CLAIMED.update({
+ 'C09': dict(level='proof', technique='Lean 4 proof over a scheduler-free calculus model (every theorem over Deriv quantifies over all options / tie-break orders / build-or-step); one closed derivation excludes a genuine countermodel for every premise permutation or duplication; sweep of the real prover over the option matrix x build/step x tie-break seeds x premise variants with whole-proof replay',
+   text='The calculus model has no scheduler: Deriv ranges over every finite sequence of legal rule applications, so optimisation options, tie-break orders and build()/step() are inside the quantifier of C01/C03/C10/C11 and of C09_verdict_unique_partial: if SOME legal derivation from the trunk closes then no structure is a countermodel of any argument with the same premise set and conclusion (any order, any multiplicity) - no other search can end with a branch from which a genuine countermodel is read; Countermodel depends on the premise set only. Instantiated per logic through the C01 obligations. The converse half (a limit-free saturated open branch yields a genuine countermodel) is C02. The sweep runs each argument under is_group_optim x is_rank_optim x {build, step} x tie-break seeds (hook) x premise permutations/duplications: any exception and any valid/refuted conflict is a violation; every run is replayed through the model as a legal derivation.',
+   note=TB + ' Partial: mutual exclusion of the two outcome classes across all searches needs C02 (Hintikka); "never raises" is a runtime property observed on the sweep only. Tie-break orders are enumerated through the guarded hook PYTABLEAUX_VERIF_ORDER.'),
+ 'C10': dict(level='proof', technique='Lean 4 proof: reflexivity by the invariant "branches only grow" over every legal derivation + a decidable side condition on the regenerated closure table (decide +kernel per logic); monotonicity and injective renaming (letters, constants, predicates, variables incl. bound ones) proved at the level of countermodels in arbitrary structures; metamorphic runs of the real prover',
+   text='C10_reflexive: if the conclusion is among the premises then on every open branch of every tableau reachable by any legal derivation the closure step is legal (both trunk nodes persist because legal steps only extend open branches; every literal set containing both trunk constraints closes - kernel-evaluated on each logic\'s regenerated closure table), so only closed tableaux are finished. C10_monotone_partial: a closed tableau for G |- A excludes every countermodel of G,B |- A. C10_renaming_countermodels: an argument has a countermodel iff its renaming has one (pull-back of structures along the renaming; variables renamed injectively, binders with occurrences; Identity/Existence fixed), hence closed tableaux exclude countermodels of the renamed argument and conversely. The metamorphic runs (repeat the conclusion as a premise / add a premise / rename injectively) over all 57 logics incl. first-order modal arguments compare verdict classes.',
+   note=TB + ' Partial: from "no countermodel" to "no limit-free open branch" is C02 completeness; that the real prover stops only when no rule applies is observed on the runs.'),
+})
+CLAIMED.update({
+ 'C16': dict(level='proof', technique='Lean 4 proof: invariant by induction over every legal step / every derivation for the calculus model extended with the event record (Book); theorems about the mirrored tree builder (leaves, counts, distinct nodes) and statistics; correspondence: every real run observed through the public API and events at every prefix, replayed through the model and compared (prefix observations, stat record, tree, statistics)',
+   text='Book (Ptx/Tab/Tree.lean) carries branches, per-branch records (node objects, fork length, steps added/closed, parent, tick records), the open view and the history alongside the calculus model; listener exceptions are explicit outcomes. Proved for EVERY legal step of any logic data and every derivation from the trunk: trunk = premises then conclusion node in order; branches only grow; closed branches are never touched and are exactly those whose last node is the closure flag; the open view lists exactly the unclosed branches; new branches extend their parent; each step is recorded once; recorded step numbers persist and are bounded. Tree.build mirrors Tableau.Tree._build line by line: it takes none of its exception paths, leaves with their root-to-leaf paths are a permutation of the branches, width / descendant / structure node counts / depth / left-right / distinct nodes equal recomputed values, statistics equal observable counts (17 theorems, none partial; tree theorems assume every rule group adds at least one node, kernel-checked for all 57 logics each run).',
+   note=TB2 + 'EventEmitter dispatch order and re-entrant listeners are not modelled; node identity is modelled as (origin branch, position). The tie between Book and Tableau.__listen_on / Tree._build is the sampled correspondence (every run, every prefix).'),
+})
 PENDING = 'check not built yet in this round (planned: Lean 4 proof + correspondence, see DESIGN.md section 6)'
 NOT_APPLICABLE = {}
 
